@@ -28,13 +28,13 @@ MUT_RMW = {"operator++", "operator--", "operator+=", "operator-=", "operator*=",
            "fetch_and", "fetch_xor"}
 MUT_GROW = {"resize", "reserve", "push_back", "emplace_back", "emplace", "insert", "erase", "pop",
             "pop_back", "pop_front", "push", "push_front", "shrink_to_fit", "emplace_front"}
-ALIAS_FREE = {"std::move", "std::forward", "std::ref", "std::cref", "std::addressof", "std::get",
+ALIAS_FREE = {"std::back_inserter", "std::inserter", "std::front_inserter", "std::move", "std::forward", "std::ref", "std::cref", "std::addressof", "std::get",
               "std::as_const", "std::static_pointer_cast", "std::max", "std::min", "std::tie",
               "std::begin", "std::end", "std::make_reverse_iterator",
               "xt::col", "xt::row", "xt::view", "xt::flatten", "xt::strided_view", "xt::adapt",
               "xt::transpose", "xt::broadcast", "xt::noalias", "xt::ravel", "xt::reshape_view",
               "xt::squeeze", "xt::eval", "xt::flip", "xt::index_view", "xt::filter", "xt::diagonal"}
-WRITE_RANGE_FREE = {"std::fill": [0], "std::iota": [0], "std::sort": [0], "std::reverse": [0],
+WRITE_RANGE_FREE = {"std::copy_if": [2], "std::fill": [0], "std::iota": [0], "std::sort": [0], "std::reverse": [0],
                     "std::stable_sort": [0], "std::swap": [0, 1], "std::fill_n": [0],
                     "std::transform": [2], "std::copy": [2], "std::copy_n": [2],
                     "std::partial_sort": [0], "std::nth_element": [0], "std::rotate": [0],
@@ -51,7 +51,7 @@ PURE_PREFIXES = ("std::numeric_limits", "std::pow", "std::fabs", "std::abs", "st
                  "xt::sqrt", "xt::pow", "xt::abs", "xt::maximum", "xt::minimum", "xt::full_like",
                  "xt::zeros_like", "xt::ones_like", "xt::empty_like", "xt::cast", "xt::detail",
                  "xt::xt", "std::distance", "std::accumulate", "std::count", "std::find",
-                 "std::all_of", "std::any_of", "std::equal", "std::is_", "std::hash",
+                 "std::all_of", "std::any_of", "std::none_of", "std::count_if", "std::find_if", "std::equal", "std::is_", "std::hash",
                  "__builtin", "__assert_fail", "std::size", "std::empty", "std::invoke",
                  "std::lower_bound", "std::upper_bound", "std::max_element", "std::min_element",
                  "fastscapelib::", "std::chrono", "std::this_thread", "std::fmod", "std::round",
@@ -758,6 +758,32 @@ class FnAnalysis:
                 c = (("other",), self.cls(args_n[1])) if bn == "xt::col" else (self.cls(args_n[1]), ("other",))
                 return {p + (("[]", c),) for p in (arg_paths[0] if arg_paths else set())}
             return out or {TMP}
+        if bn in ("std::for_each", "std::for_each_n"):
+            # the callable's captured effects were folded where the closure was created; the range is
+            # read, and written element-wise only if the callable takes its argument by non-const reference
+            writes = False
+            if len(args_n) >= 3:
+                for n in walk(args_n[2]):
+                    if n.get("k") == "lambda" and n.get("fid") in fn.unit.fns:
+                        lam = fn.unit.fns[n["fid"]]
+                        if lam.params:
+                            t0 = lam.type(lam.params[0]["t"])
+                            writes = t0.endswith("&") and not t0.startswith("const ") and "const &" not in t0
+            for i, (ps, a) in enumerate(zip(arg_paths, args_n)):
+                self.read(ps, a)
+                if writes and i == 0:
+                    self.write(ps, "elem", e)
+            return {TMP}
+        if bn in ("std::copy_if", "std::copy", "std::copy_n", "std::transform") and args_n and \
+                any(n.get("k") == "call" and n.get("bn") in ("std::back_inserter", "std::inserter", "std::front_inserter")
+                    for n in walk(args_n[-2 if bn in ("std::copy_if", "std::transform") else -1])):
+            # output through an insert iterator: the destination container grows (read-modify-write)
+            di = len(args_n) - 2 if bn in ("std::copy_if", "std::transform") else len(args_n) - 1
+            for i, (ps, a) in enumerate(zip(arg_paths, args_n)):
+                self.read(ps, a)
+                if i == di:
+                    self.write(ps, "grow", e)
+            return {TMP}
         if bn in WRITE_RANGE_FREE:
             wset = set()
             for i in WRITE_RANGE_FREE[bn]:
